@@ -5,13 +5,11 @@ CONSTANTS
   Gates <- GatesE2q
   NewParams <- NewParamsC
   Queries <- QueriesE2q
-  MaxDepth = 4
+  MaxDepth = 3
   Record = FALSE
   Deviations <- NoDev
   ConeIgnoresSwap = FALSE
 VIEW view
-INVARIANT AlphabetValid
-INVARIANT GatesUnitary
 INVARIANT RegIsRun
 INVARIANT NormOne
 INVARIANT QueriesAgree
